@@ -2,10 +2,25 @@
     exactly the counts of [Spec/Counts.v].
 
     (a) [annotate_all_char], [annotate_all_err], [annotate_all_ok_iff]
-    (b) [profile_counts_char]
-    (c) [profile_direct_independent_of_inverse]
-    (d) [clean_profile_char] and corollaries
-    (e) [cnt_perm], [occ_perm] *)
+    (b) [profile_counts_char] (lookups), [profile_entries_char] (entry-wise),
+        [raw_profile_wf]; after cleaning: [profile_final_char] (sound) and
+        [profile_final_complete]
+    (c) [profile_inverse_flag_raw], [profile_direct_independent_of_inverse]
+        (no cleaning); [profile_inverse_flag], [profile_inverse_flag_subjects],
+        [profile_inverse_flag_tracked], [profile_direct_independent_of_inverse_clean]
+    (d) [clean_profile_char], [In_shapes_to_remove], [dkeys_remove_iteration],
+        [dget_remove_iteration], [plook_remove_keys_pdict], [profile_result],
+        [profile_err], [profile_unchanged]
+    (e) [cnt_perm], [occ_perm], [annotate_all_ok_perm]
+    also [track_insts_ok] (the tracker's dictionary satisfies the hypotheses),
+    [occ_le_class_count], [occ_exact_le_plus], [occ_tau_only_one].
+    Key orders are in [ProfileOrder.v].
+
+    Vocabulary: [fget f p k] / [fmem f p k] look up instance features,
+    [plook d p k card] / [pmem d p k] class features, [cdirect P c] /
+    [cinverse P c] the dictionaries of a class ([[]] if absent),
+    [raw_profile cfg I ID] = ([P1], [C0]) of [profile] before cleaning,
+    [build_profile] the fold over the instances. *)
 From Coq Require Import List Ascii String ZArith NArith Bool Lia Permutation.
 From Shexer Require Import Lib.PyStr Lib.Dict Gen.Consts Spec.Rdf Model.Tracker Model.Profiler
      Spec.Counts Proofs.DictLemmas.
